@@ -12,6 +12,7 @@ package main
 //   tcp1    same as sync1 but the ingress is a TCP service (tcp-service-port annotation)
 //   cfg<N>  as sync<N>, then the real haproxy.Instance renders haproxy.tmpl into a scratch
 //           directory and the snippet is read back from the generated backend section
+//   msync<R> several backends through ONE converter/updater, repeated R times (c19sync.go, own case format)
 //
 // Case line:  C19 <kind> <kws> <global> <anns> => <lines>;<why>
 //   <kws>    `-` or comma separated `h<hex>` (ConverterOptions.DisableKeywords, after utils.Split)
@@ -57,6 +58,15 @@ const (
 func init() {
 	props["C19"] = runC19
 	replayers["C19"] = func(c *ctx, a []string) {
+		if len(a) == 5 {
+			sc, err := c19ParseSync(a)
+			if err != nil {
+				fmt.Fprintln(os.Stderr, "C19 replay:", err)
+				return
+			}
+			c19syncCase(c, sc)
+			return
+		}
 		if len(a) != 4 {
 			return
 		}
@@ -767,6 +777,9 @@ func runC19(c *ctx) {
 		}
 	}
 	c.stat("exhaustive_merge_sync2", 1)
+
+	// ---- one sync, several backends, one updater (c19sync.go)
+	runC19Sync(c)
 
 	// ---- random multi-line snippets through every entry point
 	r := gen.New(c.seed)
